@@ -146,6 +146,22 @@ def judge_state(ctx, tree, now, case):
             if sorted(map(key, got2)) != sorted(map(key, want2)):
                 V("digest-lines", f"info -sf {a} -sf {b} (history '{wants[a][0] or '.'}'): printed {got2}, recorded {want2}",
                   form="two-sf", in_child=wants[a][0] != "", n_printed=min(len(got2), 1))
+    # ... and with ROOT given, files that belong to DIFFERENT histories below it: each is looked up in its own nearest history
+    if "" in roots:
+        cross = [(a, b) for a in sorted(wants) for b in sorted(wants) if a < b and wants[a][0] != wants[b][0]]
+        for a, b in cross[:2]:
+            r5 = ctx.run("info", [root, "-sf", os.path.join(root, a), "-sf", os.path.join(root, b)], now=now)
+            stats["cmds"] += 1
+            want2 = wants[a][1] + wants[b][1]
+            key = lambda x: (x[0], x[2] or "", x[3] or "", x[4] or "")
+            if r5.exc is not None or r5.exit != 0:
+                V("info-sf-fails", f"info ROOT -sf {a} -sf {b}: exit {r5.exit} {r5.exc}", form="two-sf-two-histories",
+                  exc=(r5.exc or "").split(":")[0] or None)
+            else:
+                got2 = [x for lst in parse_info(r5.out).values() for x in lst if x[2] is not None]
+                if sorted(map(key, got2)) != sorted(map(key, want2)):
+                    V("digest-lines", f"info ROOT -sf {a} (history '{wants[a][0] or '.'}') -sf {b} (history '{wants[b][0] or '.'}'): printed "
+                      f"{got2}, recorded {want2}", form="two-sf-two-histories", in_child=True, n_printed=min(len(got2), 1))
     # a file that exists but has no history above it
     if not roots and med:
         f = sorted(p for p, c in med.items() if c is not DIR)[:1]
@@ -205,7 +221,7 @@ def main(tier, seed):
     from props import c06, c08
     q = tier == "quick"
     inits = [("c06", dict(c06.BASE), dict(alpha="c06", cmds=0, edits=0, max_cmds=3 if q else 4, max_edits=1, rich=not q)),
-             ("c08", c08.base_tree(c08.DIRS), dict(alpha="c08", cmds=0, max_cmds=3 if q else 4, rich=not q))]
+             ("c08", c08.base_tree(c08.DIRS), dict(alpha="c08", cmds=0, max_cmds=3, rich=not q, ignores=not q))]
     # a long history (generation numbers pass 9 -> 10) in a root and a nested history
     longbase = ops.build(eng.local_ctx(), dict(c06.BASE), [ops.create("d", ["md5"])])
     inits.append(("c06-long", longbase, dict(alpha="c06", cmds=0, edits=0, max_cmds=11 if q else 13, max_edits=0, long=True)))
